@@ -228,6 +228,9 @@ func genElement(rc *RC, n *int, depth int, g *c08Gen) string {
 
 func runC08(rc *RC) {
 	ch := rc.Ch
+	if d := rc.S.ConfigureDense(); d != "" {
+		rc.Describe("%s", d)
+	}
 	opts := E2Opts{S2S: ch.Chance("workload", 1, 4), Chunk: true}
 	if !opts.S2S && ch.Chance("workload", 1, 3) {
 		opts.WS = true
